@@ -69,8 +69,25 @@ struct char_traits_base {
 
     static constexpr auto move(char_type* dest, char_type const* source, size_t count) -> char_type*
     {
-        for (size_t i = 0; i < count; ++i) {
-            dest[i] = source[i];
+        // [char.traits.require]: correct even where the ranges overlap. If dest points into
+        // (source, source + count) a forward copy would overwrite characters before they are read.
+        // (Found with == only: ordering unrelated pointers is not allowed in constant expressions.)
+        auto backward = false;
+        for (size_t i = 1; i < count; ++i) {
+            if (dest == source + i) {
+                backward = true;
+                break;
+            }
+        }
+
+        if (backward) {
+            for (size_t i = count; i != 0; --i) {
+                dest[i - 1] = source[i - 1];
+            }
+        } else {
+            for (size_t i = 0; i < count; ++i) {
+                dest[i] = source[i];
+            }
         }
         return dest;
     }
